@@ -7,6 +7,10 @@ TECH = "bounded symbolic execution of the real code's go/ssa form, every branch/
 BASE = "cd /repo && go test -vet=off -count=1 -timeout 25m ./..."
 
 CLAIMED = {
+ "C08": dict(
+   text="All histories of k=3/4 events from the active state, the harness acting as peer and application: peer Ping (payload 0/2/125 bytes, symbolic), Pong, data, valid Close (no status, 1000, 3000+reason, any other legal code), invalid Close (1-byte payload, code 1005, non-UTF-8 reason), protocol violation, transport EOF; local Write/AsyncWrite, Flush, Close; reads through NextFrame or AsyncNextFrame. A ghost RFC 6455 state machine gives the expected State() and the exact list of frames the client must send. After every event: State() matches, every frame on the wire is whole, masked, and is the next expected one (one Pong per Ping received while active with identical payload, in arrival order and ahead of later application frames; Pongs unanswered; peer Close echoed once with its code, 1000 if none, 1002 if invalid; local Close refuses later writes while reads go on until the peer's Close; EOF surfaces as a 1006 Close frame), at most one Close frame and nothing after it, and what is not yet on the wire is exactly what is queued; after a final Flush everything due was sent with byte-identical payloads.",
+   note="Quick tier delivers each peer frame in one read (segmentation is C06's subject), thorough in <= 2; close reasons longer than 2 bytes and the server role are outside; a read attempted in a terminal stage may move State() to StateTerminated (accepted).",
+   ref="DESIGN.md §4 C08"),
  "C16": dict(
    text="(1) setPayloadLength on a masked frame for EVERY length 0..2^40 (symbolic): shortest legal encoding, mask bit kept, declared length and payload offset right. (2) Sessions of 2/3 writes through Write, AsyncWrite, WriteFrame and AsyncWriteFrame with SetPayload, and WriteFrame of a caller-built frame WITHOUT payload, payload lengths {0,1,125,126,300} with symbolic bytes and mask keys, frames drawn from the pool model (fresh or any earlier released frame), transport accepting the bytes in <= 2/3 partial writes: after every write the bytes the transport has received parse (independent parser in the harness) into exactly the submitted frames in order, each with mask bit, FIN, the submitted opcode, shortest length encoding, payload that un-masks with the frame's key to the caller's bytes (every byte), and NOTHING trailing; nothing stays queued. (3) a message longer than a symbolic maximum is refused by Write and AsyncWrite without any transport write.",
    note="Automatically generated Pong and Close frames are checked on the wire under C08. Lengths above 300 bytes are covered only by (1) (the masking loop is executed concretely per byte); server role is outside.",
